@@ -89,7 +89,7 @@ PROPS["C14"] = {
     "assumptions": ["expiry arithmetic within the int64 range"],
 }
 PROPS["C19"] = {
-    "level_text": "Theorems (Properties/C19.v): the v1 role tables generated from the code equal the v1 matrix (incl. cluster/server); the v1 header test holds iff type lower-cases to jwt and the algorithm to ed25519 (the version-2 name is refused); accepted => the signature verifies under the payload's issuer over the payload segment, issuer role permitted, header valid; a signature that does not verify is refused; Encode's gate implies permitted signer and subject roles; the codec meta-theorem instantiated on the seven v1compat schemas generated by reflection (all fields preserved). Tie: random v1 claims of all 7 kinds through v1 Encode/Decode (300 per kind), single-character edits, v2-algorithm headers, forged wrong-role issuers through all 7 decoders with independent Ed25519 verdicts, Encode matrix; compared with the model in Coq.",
+    "level_text": "Theorems (Properties/C19.v): the v1 role tables generated from the code equal the v1 matrix (incl. cluster/server); the v1 header test holds iff type lower-cases to jwt and the algorithm to ed25519 (the version-2 name is refused); accepted => the signature verifies under the payload's issuer over the payload segment, issuer role permitted, header valid; a signature that does not verify is refused; Encode's gate implies permitted signer and subject roles; the codec meta-theorem instantiated on the seven v1compat schemas generated by reflection (all fields preserved); AT TOKEN LEVEL, for every claims value of the seven v1 kinds the text the v1 encoder writes (v1 header, marshalled payload, signature over the payload segment, concrete base64url) is accepted by the v1 decoder model whose JSON steps are the codec on the generated schemas, under the payload's issuer, and reads back the encoded claims. Tie: random v1 claims of all 7 kinds through v1 Encode/Decode (300 per kind), single-character edits, v2-algorithm headers, forged wrong-role issuers through all 7 decoders with independent Ed25519 verdicts, Encode matrix; compared with the model in Coq.",
     "level_note": DEC_NOTE,
     "assumptions": ["EUF-CMA of Ed25519"],
 }
